@@ -6,17 +6,19 @@ All statements are about the executable model the driver runs: `fnToSympy` / `tr
 `Generated.tables` that `translate/c06.py` reads from the current `source_tools.py`, the Python semantics
 `callFn` and the symbolic semantics `evalS`.
 
-The unchanged `_handle_fn_body` violates the full statement in three classes (F-C06-1 shared context,
-F-C06-2 fall-through branches, F-C06-7 truthiness tests): `C06_sound_full_false_*` exhibit each, and
-`C06_sound_partial` proves soundness under the decidable `progOk`, which excludes exactly these.
+After the repairs of F-C06-1 (branches work on a copy of the symbol table), F-C06-2 (a branch that falls through is
+refused unless all that follows is `return <its last name>`) and F-C06-7 (tests must be Booleans) the full statement
+holds without any side condition on the program: `C06_sound`, `C06_rename_sound`.  The `example`s at the end replay the
+three old witnesses against the *pre-repair* tables (`branchCopies`, `fallThroughChecked`, `testsBoolean` off).
 -/
 import MxlVerif.Lemmas.C06Tables
 namespace Mxl.C06
 
 open Generated in
 /-- Every entry of the operator / comparison / known-function tables read from `source_tools.py` has a
-symbolic meaning equal to the Python operator's meaning, and the three control facts hold: `subs` is
-simultaneous, tuple assignments translate the right-hand side first, unhandled statement kinds are refused. -/
+symbolic meaning equal to the Python operator's meaning, and the six control facts hold: `subs` is simultaneous,
+tuple assignments translate the right-hand side first, unhandled statement kinds are refused, every branch of an `if` is
+translated against a copy of the symbol table, `_check_branch` guards every branch, tests go through `_handle_test`. -/
 theorem C06_table_sound : TablesOk Generated.tables where
   unops := by
     intro op s hmem x v h
@@ -39,6 +41,9 @@ theorem C06_table_sound : TablesOk Generated.tables where
   substSim := rfl
   tupleSim := rfl
   stmtRefused := rfl
+  branchCopies := rfl
+  fallChecked := rfl
+  testsBool := rfl
 
 /-- the meaning (as a mathematical constant) of a `KNOWN_CONSTANTS` key / value text -/
 def pyConstMeaning : String → Option String
@@ -55,42 +60,29 @@ theorem C06_const_table_sound :
     Generated.knownConsts.all (fun ks => (pyConstMeaning ks.1).isSome && pyConstMeaning ks.1 == symConstMeaning ks.2) = true := by
   decide
 
-/-- **Soundness (partial).** For a program whose functions all satisfy the decidable side condition `progOk`
-(every branch of an `if` returns, no branch re-binds a bound name, tests are comparisons): if the translator
-yields an expression `e` for `d` and Python's `d(vs)` has the value `v`, then `e` evaluates to `v` at the
-valuation `params ↦ vs`.  For every fuel (= every recursion depth of either side). -/
-theorem C06_sound_partial (P : Prog) (k : Nat) (hP : progOk k P = true) (d : FnDef) (hd : d ∈ P)
-    (f1 f2 : Nat) (e : SExpr) (vs : List Val) (v : Val)
+/-- **Soundness.** For every program and function: if the translator yields an expression `e` for `d` and Python's
+`d(vs)` has the value `v`, then `e` evaluates to `v` at the valuation `params ↦ vs`.  No side condition; for every
+fuel (= every recursion depth of either side). -/
+theorem C06_sound (P : Prog) (d : FnDef) (f1 f2 : Nat) (e : SExpr) (vs : List Val) (v : Val)
     (htr : fnToSympy Generated.tables P f1 d none = .ok e) (hpy : callFn P f2 d vs = some v) :
-    evalS (envOf (d.params.zip vs)) e = some v := by
-  have hP' : ∀ d ∈ P, fnOk k d = true := by
-    unfold progOk at hP
-    rw [List.all_eq_true] at hP
-    exact hP
-  exact (sound_all C06_table_sound hP' f1).fnPlain d none e htr (Or.inl rfl) (hP' d hd) f2 vs v hpy _
-    (fun n x hn => hn)
+    evalS (envOf (d.params.zip vs)) e = some v :=
+  (sound_all C06_table_sound f1).fnPlain d none e htr (Or.inl rfl) f2 vs v hpy _ (fun _ _ hn => hn)
 
-/-- **Soundness under renaming (partial).** With `model_args = ms` (symbols or expressions, possibly the
-function's own parameter names in another order): at any valuation `ρ` of the model symbols where the `ms`
-evaluate to `vs`, the substituted expression evaluates to Python's `d(vs)`. -/
-theorem C06_rename_sound_partial (P : Prog) (k : Nat) (hP : progOk k P = true) (d : FnDef) (hd : d ∈ P)
-    (f1 f2 : Nat) (ms : List SExpr) (e : SExpr) (vs : List Val) (v : Val) (ρ : SEnv)
-    (htr : fnToSympy Generated.tables P f1 d (some ms) = .ok e)
-    (hargs : All2 (fun m x => evalS ρ m = some x) ms vs)
-    (hpy : callFn P f2 d vs = some v) :
+/-- **Soundness under renaming.** With `model_args = ms` (symbols or expressions, possibly the function's own
+parameter names in another order): at any valuation `ρ` of the model symbols where the `ms` evaluate to `vs`, the
+substituted expression evaluates to Python's `d(vs)`. -/
+theorem C06_rename_sound (P : Prog) (d : FnDef) (f1 f2 : Nat) (ms : List SExpr) (e : SExpr) (vs : List Val) (v : Val)
+    (ρ : SEnv) (htr : fnToSympy Generated.tables P f1 d (some ms) = .ok e)
+    (hargs : All2 (fun m x => evalS ρ m = some x) ms vs) (hpy : callFn P f2 d vs = some v) :
     evalS ρ e = some v := by
-  have hP' : ∀ d ∈ P, fnOk k d = true := by
-    unfold progOk at hP
-    rw [List.all_eq_true] at hP
-    exact hP
   cases ms with
   | nil =>
     cases hargs
-    refine (sound_all C06_table_sound hP' f1).fnPlain d (some []) e htr (Or.inr rfl) (hP' d hd) f2 [] v hpy ρ ?_
+    refine (sound_all C06_table_sound f1).fnPlain d (some []) e htr (Or.inr rfl) f2 [] v hpy ρ ?_
     intro n x hn
     simp at hn
   | cons m ms =>
-    exact (sound_all C06_table_sound hP' f1).fnSubst d m ms e htr (hP' d hd) f2 vs v hpy ρ hargs
+    exact (sound_all C06_table_sound f1).fnSubst d m ms e htr f2 vs v hpy ρ hargs
 
 /-- **Nested calls.** The translation of `g(args)` is the translation of `g`'s body with the translated
 arguments substituted *simultaneously* for `g`'s parameters. -/
@@ -113,9 +105,9 @@ theorem C06_nested_call (P : Prog) (f : Nat) (G : List (String × GVal)) (ctx : 
     simp only [hlen, ne_eq, not_true_eq_false, ↓reduceIte, pure, Except.pure, applySubst]
     rfl
 
-/-! ### the full statement is false of the unchanged `_handle_fn_body`: one witness per class -/
+/-! ### the three shapes the unrepaired `_handle_fn_body` got wrong are refused now -/
 
-/-- `def f(x): y = x; if x > 0: y = 2*x; return y; return y`  (F-C06-1) -/
+/-- `def f(x): y = x; if x > 0: y = 2*x; return y; return y`  (was F-C06-1: translated to 2*x everywhere) -/
 def leakFn : FnDef where
   name := "f"
   params := ["x"]
@@ -125,7 +117,7 @@ def leakFn : FnDef where
              [.assign "y" (.bin .mul (.num 2) (.name "x")), .ret (.name "y")] [],
            .ret (.name "y")]
 
-/-- `def f(x): if x > 0: y = 1 else: y = 2; z = y + x; return z`  (F-C06-2) -/
+/-- `def f(x): if x > 0: y = 1 else: y = 2; z = y + x; return z`  (was F-C06-2) -/
 def afterIfElseFn : FnDef where
   name := "f"
   params := ["x"]
@@ -134,59 +126,58 @@ def afterIfElseFn : FnDef where
            .assign "z" (.bin .add (.name "y") (.name "x")),
            .ret (.name "z")]
 
-/-- `def f(x): if x: return 1; return 2`  (F-C06-7) -/
+/-- `def f(x): if x: return 1; return 2`  (was F-C06-7) -/
 def truthyFn : FnDef where
   name := "f"
   params := ["x"]
   globals := []
   body := [.ifs (.name "x") [.ret (.num 1)] [], .ret (.num 2)]
 
-/-- full-strength soundness of the translator model: no side condition on the program -/
-def FullSoundness : Prop :=
-  ∀ (P : Prog) (d : FnDef), d ∈ P → ∀ (f1 f2 : Nat) (e : SExpr) (vs : List Val) (v : Val),
-    fnToSympy Generated.tables P f1 d none = .ok e → callFn P f2 d vs = some v →
-    evalS (envOf (d.params.zip vs)) e = some v
-
-theorem C06_sound_full_false_leak :
+/-- the old witnesses today: the first is translated correctly (branch copy), the other two are refused -/
+theorem C06_old_witnesses_now :
     fnToSympy Generated.tables [leakFn] 20 leakFn none
+      = .ok (.pw (.bin .mul (.num 2) (.sym "x")) (.rel .gt (.sym "x") (.num 0))
+              (.pw (.sym "x") (.boolLit true) .pwEnd)) ∧
+    (fnToSympy Generated.tables [afterIfElseFn] 20 afterIfElseFn none).toOption = none ∧
+    (fnToSympy Generated.tables [truthyFn] 20 truthyFn none).toOption = none := by
+  decide +kernel
+
+/-- the tables of the code before the three repairs -/
+def preRepairTables : Tables :=
+  { Generated.tables with branchCopies := false, fallThroughChecked := false, testsBoolean := false }
+
+example :
+    fnToSympy preRepairTables [leakFn] 20 leakFn none
       = .ok (.pw (.bin .mul (.num 2) (.sym "x")) (.rel .gt (.sym "x") (.num 0))
               (.pw (.bin .mul (.num 2) (.sym "x")) (.boolLit true) .pwEnd)) ∧
     callFn [leakFn] 20 leakFn [.num (-1)] = some (.num (-1)) ∧
     evalS (envOf [("x", .num (-1))])
         (.pw (.bin .mul (.num 2) (.sym "x")) (.rel .gt (.sym "x") (.num 0))
               (.pw (.bin .mul (.num 2) (.sym "x")) (.boolLit true) .pwEnd)) = some (.num (-2)) := by
-  refine ⟨by decide +kernel, by decide +kernel, by decide +kernel⟩
+  decide +kernel
 
-theorem C06_sound_full_false_after_ifelse :
-    fnToSympy Generated.tables [afterIfElseFn] 20 afterIfElseFn none
+example :
+    fnToSympy preRepairTables [afterIfElseFn] 20 afterIfElseFn none
       = .ok (.pw (.num 1) (.rel .gt (.sym "x") (.num 0)) (.pw (.num 2) (.boolLit true) .pwEnd)) ∧
-    callFn [afterIfElseFn] 20 afterIfElseFn [.num 3] = some (.num 4) ∧
-    evalS (envOf [("x", .num 3)])
-        (.pw (.num 1) (.rel .gt (.sym "x") (.num 0)) (.pw (.num 2) (.boolLit true) .pwEnd)) = some (.num 1) := by
-  refine ⟨by decide +kernel, by decide +kernel, by decide +kernel⟩
+    callFn [afterIfElseFn] 20 afterIfElseFn [.num 3] = some (.num 4) := by
+  decide +kernel
 
-theorem C06_sound_full_false_truthy :
-    fnToSympy Generated.tables [truthyFn] 20 truthyFn none
+example :
+    fnToSympy preRepairTables [truthyFn] 20 truthyFn none
       = .ok (.pw (.num 1) (.sym "x") (.pw (.num 2) (.boolLit true) .pwEnd)) ∧
     callFn [truthyFn] 20 truthyFn [.num 3] = some (.num 1) ∧
     evalS (envOf [("x", .num 3)]) (.pw (.num 1) (.sym "x") (.pw (.num 2) (.boolLit true) .pwEnd)) = none := by
-  refine ⟨by decide +kernel, by decide +kernel, by decide +kernel⟩
-
-/-- the negation of the full statement, from the first witness -/
-theorem C06_sound_full_false : ¬ FullSoundness := by
-  intro h
-  obtain ⟨h1, h2, h3⟩ := C06_sound_full_false_leak
-  have := h [leakFn] leakFn (by simp) 20 20 _ [.num (-1)] (.num (-1)) h1 h2
-  have h3' : evalS (envOf (leakFn.params.zip [Val.num (-1)])) _ = some (.num (-2)) := h3
-  rw [h3'] at this
-  revert this
   decide +kernel
 
-/-- none of the three witnesses satisfies the side condition (it excludes exactly their classes) -/
-theorem C06_witnesses_excluded :
-    progOk 20 [leakFn] = false ∧ progOk 20 [afterIfElseFn] = false ∧ progOk 20 [truthyFn] = false ∧
-    noRebindB 20 [leakFn] = false ∧ branchesReturnB 20 [afterIfElseFn] = false ∧ condsCmpB 20 [truthyFn] = false := by
-  decide +kernel
+/-- each of the three repairs is needed: tables without it are not `TablesOk` -/
+theorem C06_repairs_needed :
+    ¬ TablesOk { Generated.tables with branchCopies := false } ∧
+    ¬ TablesOk { Generated.tables with fallThroughChecked := false } ∧
+    ¬ TablesOk { Generated.tables with testsBoolean := false } := by
+  refine ⟨?_, ?_, ?_⟩
+  · intro h; exact absurd h.branchCopies (by decide)
+  · intro h; exact absurd h.fallChecked (by decide)
+  · intro h; exact absurd h.testsBool (by decide)
 
 /-- why the repair of F-C06-4 was needed: sequential substitution is not substitution.
 `(a - b).subs({a: b, b: a})` done one key after the other is `a - a`. -/
@@ -204,7 +195,7 @@ theorem C06_structEq_not_ok : ¬ TablesOk { Generated.tables with cmpops := [(.e
   obtain ⟨r, hr, _⟩ := h.cmpops .eq .structEq (by simp)
   cases hr
 
-/-! ### non-vacuity: programs inside the theorem's domain that are translated to an expression -/
+/-! ### non-vacuity: programs that are translated to an expression, with every accepted control-flow shape -/
 
 /-- `def g(a): if 1 < a < 2: return a; elif a == 2: t = a / 2; return t; else: return a ** 2` -/
 def guardFn : FnDef where
@@ -224,7 +215,17 @@ def callerFn : FnDef where
   body := [.tupleAssign ["t", "u"] [.name "b", .name "a"],
            .ret (.bin .sub (.call "g" [.name "t"]) (.name "u"))]
 
-example : progOk 20 [guardFn, callerFn] = true := by decide +kernel
+/-- `def k(a): b = 0; if a > 1: b = a; elif a < 0: return 7; else: b = a**2; return b`  (branches that fall through with
+the accepted continuation, re-binding a bound name) -/
+def fallFn : FnDef where
+  name := "k"
+  params := ["a"]
+  globals := []
+  body := [.assign "b" (.num 0),
+           .ifs (.cmp (.name "a") [.gt] [.num 1]) [.assign "b" (.name "a")]
+             [.ifs (.cmp (.name "a") [.lt] [.num 0]) [.ret (.num 7)]
+                [.assign "b" (.bin .pow (.name "a") (.num 2))]],
+           .ret (.name "b")]
 
 example : (fnToSympy Generated.tables [guardFn, callerFn] 20 callerFn
             (some [.sym "b", .sym "a"])).toOption.isSome = true := by decide +kernel
@@ -233,6 +234,13 @@ example : callFn [guardFn, callerFn] 20 callerFn [.num 5, .num 2] = some (.num (
 
 example : evalS (envOf [("a", .num 5), ("b", .num 2)])
     ((fnToSympy Generated.tables [guardFn, callerFn] 20 callerFn none).toOption.getD .pwEnd) = some (.num (-4)) := by
+  decide +kernel
+
+example : (fnToSympy Generated.tables [fallFn] 20 fallFn none).toOption.isSome = true ∧
+    callFn [fallFn] 20 fallFn [.num 3] = some (.num 3) ∧ callFn [fallFn] 20 fallFn [.num (-2)] = some (.num 7) ∧
+    callFn [fallFn] 20 fallFn [.num (1/2)] = some (.num (1/4)) ∧
+    evalS (envOf [("a", .num (1/2))]) ((fnToSympy Generated.tables [fallFn] 20 fallFn none).toOption.getD .pwEnd)
+      = some (.num (1/4)) := by
   decide +kernel
 
 end Mxl.C06
